@@ -45,7 +45,13 @@ func (w *World) Canon(sat time.Duration) string {
 	}
 	sort.Strings(tp)
 	for _, pid := range tp {
-		fmt.Fprintf(&sb, "T[%s:%s]\n", pid, c.list(strings.Join(w.DB.Tokens[pid], ",")))
+		// token hashes are always random; one the oracle never saw (its cookie was overwritten or
+		// never delivered) is an anonymous atom, not a literal
+		toks := make([]string, len(w.DB.Tokens[pid]))
+		for i, t := range w.DB.Tokens[pid] {
+			toks[i] = c.rnd(t)
+		}
+		fmt.Fprintf(&sb, "T[%s:%s]\n", pid, strings.Join(toks, ","))
 	}
 	for _, bn := range w.BrowserNames() {
 		b := w.Browsers[bn]
@@ -63,7 +69,13 @@ func (w *World) Canon(sat time.Duration) string {
 	}
 	sort.Strings(fk)
 	for _, k := range fk {
-		fmt.Fprintf(&sb, "F[%s=%s]\n", k, c.sym(w.Truth.Flags[k]))
+		v := w.Truth.Flags[k]
+		if strings.HasPrefix(k, "oauth-prev-state:") {
+			v = c.rnd(v) // a remembered random value, not a literal
+		} else {
+			v = c.sym(v)
+		}
+		fmt.Fprintf(&sb, "F[%s=%s]\n", k, v)
 	}
 	tk := make([]string, 0, len(w.Truth.Times))
 	for k := range w.Truth.Times {
